@@ -141,6 +141,10 @@ func (k c18Cfg) eligible() []netip.Addr {
 
 func runC18(c *core.Ctx) {
 	t := c.T
+	if t.Bias(1, 10, "continual-policy") {
+		runC18Continual(c)
+		return
+	}
 	k := c18Cfg{}
 	k.netTypes = [][]ice.NetworkType{
 		{ice.NetworkTypeUDP4}, {ice.NetworkTypeUDP4, ice.NetworkTypeUDP6}, {}, {ice.NetworkTypeUDP6},
